@@ -21,6 +21,10 @@
      withBody    response mode: FALSE = response to HEAD (no body whatever the fields say)
      mutant      "" everywhere except in the self-test ("noLimit" / "noCLTE" remove a mechanism so
                  that the model's invariants can be shown to notice)
+     declineUpgrade  FALSE = an upgrade offer (Connection: upgrade + Upgrade: websocket|tcp) that the parser
+                 reports ends the HTTP part of the stream (tunnel).  TRUE = reading of a connection whose
+                 handler answers every offer with a plain HTTP response: the stream simply continues with
+                 the next request (web_protocol.finish_response feeds the held-back tail to the parser)
      devHeadSkip FALSE = strict reading.  TRUE = read HEAD requests the way the unchanged parser does
                  (body ignored whatever Content-Length / Transfer-Encoding say); the trace spec
                  uses this second reading only to NAME that deviation when the strict reading
@@ -66,7 +70,7 @@ NoMsg == [start |-> 0, extent |-> 0, method |-> <<>>, target |-> <<>>, vmaj |-> 
 Init0 == [phase |-> "start", pos |-> 1, msgs |-> <<>>, cur |-> NoMsg, remaining |-> 0,
           reason |-> "", rejectAt |-> 0, soft |-> <<>>, wait |-> FALSE,
           over |-> FALSE, between |-> FALSE, tight |-> FALSE, nearCount |-> FALSE,
-          pendUpgrade |-> FALSE, attributed |-> 0, tailFrom |-> 0, base |-> 0, pendLF |-> FALSE, rejPhase |-> "", headBody |-> FALSE, rejObs |-> FALSE]
+          pendUpgrade |-> FALSE, attributed |-> 0, tailFrom |-> 0, base |-> 0, pendLF |-> FALSE, rejPhase |-> "", headBody |-> FALSE, rejObs |-> FALSE, upOffer |-> FALSE]
 
 Terminal(s) == s.phase \in {"rejected", "undecided", "closed", "tunnel"}
 
@@ -318,7 +322,8 @@ DecideFraming(s, cfg) ==
                  ELSE IF hasCL \/ hasTE THEN FALSE
                  ELSE TRUE                                            \* close-delimited, 6.3 rule 8
         upgrade == SeqHas(conn, L_upgrade) /\ Len(upv) > 0
-        upSupported == upgrade /\ (LowerSeq(upv) = L_websocket \/ LowerSeq(upv) = L_tcp)
+        upOffered == upgrade /\ (LowerSeq(upv) = L_websocket \/ LowerSeq(upv) = L_tcp)
+        upSupported == upOffered /\ ~cfg.declineUpgrade
         clen == IF hasCL THEN DecVal(clv) ELSE 0
         \* framing of a request does not depend on its method (6.3); cfg.devHeadSkip = TRUE reads the stream
         \* the way the unchanged parser does (HEAD request: body ignored) - used only to NAME that deviation
@@ -332,7 +337,10 @@ DecideFraming(s, cfg) ==
         softConn == IF isReq /\ um = M_CONNECT /\ ((hasCL /\ clen > 0) \/ hasTE) THEN <<Alt("ConnectWithBody")>> ELSE <<>>
         softKey1 == IF HasField(f, L_sec_ws_key1) THEN <<Alt("OldWebSocketKey")>> ELSE <<>>
         softTEe == IF isReq /\ teEmpty THEN <<Alt("TEEmptyElement")>> ELSE <<>>
-        s1 == [AddSoft(s, softTE10 \o softTEx \o softConn \o softKey1 \o softTEe) EXCEPT !.headBody = s.headBody \/ headBody]
+        \* more digits than any real length: how a parser converts them is its business (int() refuses > 4300 digits)
+        softCLlong == IF hasCL /\ Len(clv) > 19 THEN <<Alt("ContentLengthVeryLong")>> ELSE <<>>
+        s1 == [AddSoft(s, softTE10 \o softTEx \o softConn \o softKey1 \o softTEe \o softCLlong)
+                  EXCEPT !.headBody = s.headBody \/ headBody, !.upOffer = s.upOffer \/ upOffered]
         head(kind, chunked) == [m EXCEPT !.kind = kind, !.delivered = TRUE, !.close = close,
                                          !.upgrade = upgrade, !.chunked = chunked]
         done(mm) == \* message complete at the end of its head
